@@ -11,6 +11,38 @@ def optPatStr : Option Pat → String
 
 def fuel : Nat := 4000
 
+/-- `ktrace`: the whole pipeline: rules converted with one cached scope each, the initial configuration with a
+fresh scope, substitutions with the rule's scope object (which they may extend), `rewrite_event` per step -/
+def ktraceRun (sg : Sexp) (rules : List Sexp) (init : Sexp) (steps : List Sexp) : String :=
+  let steps? : Option (List (Nat × List (Nat × Kore.KTerm))) := steps.mapM fun (st : Sexp) => match st with
+    | .list [ord, .list kvs] => do
+        let kvs ← kvs.mapM fun (kv : Sexp) => match kv with
+          | .list [x, t] => do pure (← nat? x, ← ktermOfSexp t)
+          | _ => none
+        pure (← nat? ord, kvs)
+    | _ => none
+  match ksigOfSexp sg, rules.mapM ktermOfSexp, ktermOfSexp init, steps? with
+  | some sg, some rules, some init, some steps =>
+    (match rules.mapM (fun r => Kore.conv sg {} r), Kore.convertPattern sg init with
+     | some conv, some init =>
+       let rec go (scopes : List Kore.Scope) (st : Kore.ExecSt) (k : Nat) : List (Nat × List (Nat × Kore.KTerm)) → String
+         | [] => "(ok (" ++ " ".intercalate ("axioms" :: st.axioms.map npatToStr) ++ ") (" ++
+             " ".intercalate ("claims" :: st.claims.map npatToStr) ++ ") (curr " ++ npatToStr st.curr ++ "))"
+         | (ord, kvs) :: rest =>
+           match scopes[ord]?, conv[ord]? with
+           | some sc, some (_, rule) =>
+             (match Kore.convertSubst sg sc kvs [] with
+              | none => s!"(raise subst {k})"
+              | some (sc', σ) =>
+                match Kore.rewriteEventF sg fuel st rule σ with
+                | none => "fuel"
+                | some none => s!"(raise step {k})"
+                | some (some st') => go (scopes.set ord sc') st' (k + 1) rest)
+           | _, _ => s!"(raise axiom {k})"
+       go (conv.map (·.1)) (Kore.initSt init) 0 steps
+     | _, _ => "(raise convert)")
+  | _, _, _, _ => "bad-request"
+
 def handle (line : String) : String :=
   match parseAll line with
   | none => "bad-request"
@@ -225,6 +257,15 @@ def handle (line : String) : String :=
          | some (labels, steps) =>
            "(proof (labels " ++ " ".intercalate labels ++ ") (steps " ++ " ".intercalate (steps.map toString) ++ "))")
       | _, _, _ => "bad-request"
+    | "kconv", [sg, t] =>
+      match ksigOfSexp sg, ktermOfSexp t with
+      | some sg, some t =>
+        (match Kore.conv sg {} t with
+         | none => "(raise)"
+         | some (sc, p) => s!"(ok {npatToStr p} (scope {natsToStr sc.mvs} {natsToStr sc.sortParams}))")
+      | _, _ => "bad-request"
+    | "ktrace", [sg, .list (.atom "rules" :: rules), init, .list (.atom "steps" :: steps)] =>
+      ktraceRun sg rules init steps
     | "mmparse", [toks] =>
       match strsOfSexp toks with
       | some toks => (match MM.parseDb toks with | some db => mdbToStr db | none => "(raise)")
